@@ -5,6 +5,7 @@
 From Coq Require Import List ZArith NArith Bool Arith.
 Import ListNotations.
 From V Require Import Model.SnapOps Model.StrLit Proofs.SnapOpsFlat Proofs.SnapOpsNested Proofs.SnapOpsRuns Proofs.StrLitTriple Proofs.StrLitBytes.
+From V Require Import Model.Imports Proofs.ImportsProofs.
 From V Require Model.PyRepr Proofs.PyReprProofs.
 
 Theorem C01_create_satisfies_op_flat :
@@ -99,6 +100,12 @@ Theorem C01_parse_repr_roundtrip :
   forall v : PyRepr.pv, PyRepr.wf v = true -> PyRepr.parse (PyRepr.repr_toks v) = Some v.
 Proof. exact PyReprProofs.parse_repr_roundtrip. Qed.
 
+(* the line `from inline_snapshot import HasRepr / external` (Model/Imports.v) is inserted in front of every statement that is not an import:
+   the name is bound before any module-level snapshot, class or test that uses the generated code runs, wherever further imports stand below *)
+Theorem C01_code_after_insertion :
+  forall (body : list stmt) (i : nat), nth_error body i = Some SOther -> (insert_index body <= i)%nat.
+Proof. exact code_after_insertion. Qed.
+
 Print Assumptions C01_create_satisfies_op_flat.
 Print Assumptions C01_create_satisfies_getitem.
 Print Assumptions C01_created_snapshot_second_run_passes.
@@ -109,3 +116,4 @@ Print Assumptions C01_bytes_repr_roundtrip.
 Print Assumptions C01_src_val_canon.
 Print Assumptions C01_repr_parse_roundtrip_fuel.
 Print Assumptions C01_parse_repr_roundtrip.
+Print Assumptions C01_code_after_insertion.
